@@ -44,7 +44,7 @@ def candidate_joint_actions(tier, seed):
             for j in items:
                 if i != j:
                     opts.append(("burn", [a, i, j]))
-        opts += [("sweep", [a]), ("flag", [a]), ("charge", [a])]
+        opts += [("sweep", [a]), ("flag", [a]), ("charge", [a]), ("audit", [a])]
         per_agent[a] = opts
     out = []
     curated = [
@@ -59,6 +59,9 @@ def candidate_joint_actions(tier, seed):
         [("charge", ["o1"]), ("charge", ["o2"]), None],
         [("flag", ["o1"]), ("flag", ["o2"]), ("flag", ["o3"])],
         [("take", ["o1", "o3"]), None, ("drop", ["o3", "o2"])],
+        [("audit", ["o1"]), ("flag", ["o2"]), None],
+        [("flag", ["o1"]), ("audit", ["o2"]), ("audit", ["o3"])],
+        [None, ("audit", ["o2"]), None],
     ]
     out += curated
     n = 90 if tier == "quick" else 800
